@@ -413,7 +413,7 @@ def unit_containers(unit):
                     for primed in (True, False):
                         agg.evals += 1; agg.transitions += 3; agg.states += 1; agg.nontrivial += 1; agg.compared += 1
                         case = {"cell": repr(old), "length": n, "position": pos, "through": through, "fingerprint_cached_before": primed,
-                                "history": ["fingerprint()", "change the cell object in place", "store the same object back", "fingerprint()"]}
+                                "steps": ["fingerprint()", "change the cell object in place", "store the same object back", "fingerprint()"]}
                         try:
                             vals = [7] * n
                             vals[pos] = copy.deepcopy(old)
